@@ -266,6 +266,14 @@ func c02Spaces(tier string) []*explore.Space {
 	}
 }
 
+func hostExprs(c []hostCase) []gen.Expr {
+	out := make([]gen.Expr, len(c))
+	for i := range c {
+		out[i] = c[i].with
+	}
+	return out
+}
+
 func strideCases(c []hostCase, k int) []hostCase {
 	var out []hostCase
 	for i := 0; i < len(c); i += k {
